@@ -295,9 +295,9 @@ class DIP:
             if not target.branching.false_case() or node.keyword=='case':
                 node.inject_value(target)
                 parsed = node.parse(target)
-                if parsed: 
+                if parsed or node.keyword=='import':  # an import that selects nothing adds nothing
                     # Add parsed nodes to the queue and continue
-                    queue.nodes.prepend(parsed)
+                    queue.nodes.prepend(parsed or [])
                     continue
             # Create hierarchical name
             target.hierarchy.register(node, self.nodes_nohierarchy)
